@@ -94,6 +94,8 @@ def carriers(rng, bits, n, talker_table=TALKERS):
         talker = rng.choice(talker_table) + rng.choice(['VDM', 'VDO'])
         chan = rng.choice(['A', 'B', '1', '2', ''])
         k = rng.randint(1, min(5, max(1, len(payload))))
+        if len(payload) >= 15 and rng.random() < 0.15:
+            k = rng.choice([9, 10, 11, 12, 15])      # two-digit fragment numbers
         cuts = sorted(rng.sample(range(1, len(payload)), k - 1)) if len(payload) > 1 and k > 1 else []
         # every part must fit the 200-character payload limit of the parser
         pts = [0] + cuts + [len(payload)]
